@@ -13,7 +13,7 @@ CLAIMED = {
    text="Seeded histories over {create, write, failing write, flush, write_block from fastavro- and foreign-written donors, re-open for append with unrelated valid arguments, public writer() append} are applied to a BytesIO, a simulated append-mode file or a real 'a+b' file and to a reference model; after every flush and re-open the stream is read back and must equal the model exactly, header bytes unchanged. Sampling of an infinite history space: evidence, not proof.",
    note="trusted: the reference model (a Python list), refavro.normal_eq for the documented normalisation; pure-Python modules only"),
  "C18": dict(cat="exploration", ref="DESIGN.md 4 (C18)",
-   technique="deterministic simulation: real threads under a seeded baton-passing scheduler pre-empting at CPython switch points (sys.monitoring) inside fastavro; oracle = solo run",
+   technique="deterministic simulation: real threads under a seeded baton-passing scheduler pre-empting at CPython switch points (sys.monitoring) inside fastavro, optionally after a single-threaded prehistory in a pristine forked process; oracle = solo run",
    text="2-3 caller threads run seeded operation lists on distinct streams sharing parsed schema objects; a seeded scheduler (uniform / sticky / PCT) decides every context switch at CPython 3.12 switch points in fastavro code, one seed = one exactly repeatable interleaving; each task's values, bytes and exception classes must equal those of its solo run; deadlock, stall and step-cap are violations. Every execution works on fresh copies of the shared objects and one schedule in five runs in a fresh fork of a pristine process, so that first-use races (lazily built tables, per-schema caches) happen under the schedule. Seeded search over schedules, not enumeration.",
    note="trusted: sys.monitoring event delivery as a sound subset of real switch points (calls to C types emit no event); solo run as reference; CPython 3.12.1 with GIL; pure-Python modules only"),
  "C03": dict(cat="fault_enumeration", ref="DESIGN.md 4 (C03)",
@@ -21,11 +21,11 @@ CLAIMED = {
    text="Per seeded (schema, value) the independent encoder produces a spec-valid encoding under a drawn block layout; fastavro must decode it to the independent decoder's value and skip it exactly (fault-free), must raise for every proper prefix (read and skip mode) and for eight out-of-range values forged at every union/enum index position. Enumeration is complete per encoding (sampled only for very large encodings / site counts); encodings are seeded samples.",
    note="trusted: refavro encoder/decoder (independent, spec-derived); 'raises' = any exception; skipped enum values are not required to be range-checked"),
  "C01": dict(cat="exploration", ref="DESIGN.md 4 (C01)",
-   technique="deterministic simulation: producer and consumer tasks over a simulated bounded pipe under a seeded scheduler (streaming / ping-pong / close at boundary), byte accounting at the stream seam; sequential fault-free baseline",
+   technique="deterministic simulation: producer and consumer tasks over a simulated bounded pipe under a seeded scheduler (streaming / ping-pong / close at boundary), byte accounting at the stream seam; sequential fault-free baseline on stub and real buffered inputs; values of earlier runs of the same process re-checked later (accumulated process state)",
    text="The stream-framing clause (the reader consumes exactly the bytes the writer produced; values written back to back are read one by one) is decided by a two-task message-stream simulation: bytes written per call versus bytes consumed per read are accounted at the seam, ping-pong mode deadlocks on any read-ahead, only read / write+flush may be called, a close at a value boundary must make the next read raise. The round-trip clause rides along as the fault-free baseline over seeded (schema, value) samples: evidence, not proof.",
    note="trusted: SimPipe = BufferedReader-over-pipe semantics (checked against a real os.pipe in the self-test); refavro.normal_eq for the documented normalisation; one known finding (omitted bytes/fixed defaults) is listed in KNOWN_FINDINGS.txt"),
  "C04": dict(cat="exploration", ref="DESIGN.md 4 (C04)",
-   technique="deterministic simulation: writer and reader over simulated stream kinds (write-only sink, read-only sequential input, bounded pipe with a writer task and a reader task under a seeded schedule) with swarm-randomised knobs",
+   technique="deterministic simulation: writer and reader over simulated stream kinds (write-only sink, read-only sequential input, bounded pipe with a writer task and a reader task under a seeded schedule) with swarm-randomised knobs; files of earlier runs of the same process re-read later (accumulated process state)",
    text="Every knob the property quantifies over (schema kind, record shapes incl. zero-byte and interval-threshold records, codec, sync_interval, level, marker, metadata, raw/parsed, stream kind) is drawn per run; the simulated streams expose only the permitted calls and log every call, the pipe configuration runs writer and reader concurrently under a seeded schedule and must neither deadlock nor leave bytes unread; the same records rewritten under a second sync_interval must read back identically. Record equality is the fault-free baseline over sampled schemas.",
    note="trusted: simulated stream semantics (pipe = buffered reader over a pipe); refavro.normal_eq; fastavro's own canonical-form function applied to both the supplied and the reported schema"),
  "C05": dict(cat="exploration", ref="DESIGN.md 4 (C05)",
@@ -33,7 +33,7 @@ CLAIMED = {
    text="fastavro and an independent spec-derived implementation exchange seeded container files in both directions over simulated storage: the peer parses fastavro's files strictly (magic, header map, sync, every block, end of file) and must recover the submitted records; the peer writes layout-valid files exercising the freedom fastavro's own writer never uses (empty blocks, multi-chunk and negative-count header maps, absent codec key, foreign array/map block layouts, every codec) which reader and block_reader must return; block offsets/sizes observed through the simulator's tell must tile the file per the peer's boundaries; is_avro is driven with every cut <= 6, every bit flip of the magic and seeded byte strings through buffers, read-only streams and real paths; Java-written fixtures are replayed through the same path.",
    note="trusted: refavro as peer and oracle (it parses all Java-written fixtures of the test suite); deflate trailing bytes tolerated and counted"),
  "C17": dict(cat="exploration", ref="DESIGN.md 4 (C17)",
-   technique="deterministic simulation: seeded call histories (including failing calls and shared objects) in one long-lived process versus the same call's dependency slice in a pristine forked interpreter; before/after snapshots of arguments",
+   technique="deterministic simulation: seeded call histories (including failing calls and shared objects) in one long-lived process versus the same call's dependency slice in a pristine forked interpreter, including endurance histories of hundreds to thousands of calls with short-lived schemas; before/after snapshots of arguments",
    text="Seeded histories of 5-60 public calls over schema families that reuse type names with different definitions, shared raw/parsed schema objects, shared named-schema dictionaries, Writer handles and failing calls are executed in one process of their own (a fresh fork per history); for each checked call only its dependency slice is re-evaluated in another pristine forked interpreter and value, stream bytes and exception class must agree; every schema and datum argument is snapshotted before and after each call. Seeded sampling of histories.",
    note="trusted: fork of a process that imported but never called fastavro stands for a fresh interpreter (sampled against real subprocess interpreters in the self-test); the slicing rule (object-level data flow incl. named-schema dictionaries)"),
  "C19": dict(cat="exploration", ref="DESIGN.md 4 (C19)",
